@@ -1088,6 +1088,7 @@ func GrammarGen(cfg GenConfig) *rapid.Generator[*Grammar] {
 			c.g.Entries = append(c.g.Entries, "Loop")
 		}
 		c.g.Pkg = "p"
+		c.g.IndirectState = cfg.StateBlocks && c.chance(30, "indirectstate")
 		if !cfg.NoSpellings && len(c.g.Rules) > 1 && c.chance(10, "decoyrule") {
 			c.g.Decoy = c.g.Rules[c.intn(1, len(c.g.Rules)-1, "decoyidx")].Name
 		}
